@@ -373,8 +373,25 @@ func checkFlush(p *Program, r *Result) {
 		r.undecided("C05.d", "mcap.Writer.flushActiveChunk", "anchor", "", "not found")
 		return
 	}
+	// the flush may be split into helper methods (seal/reset): the rules look at flushActiveChunk and the Writer
+	// methods it calls directly, except the record writers
+	region := []*ssa.Function{fn}
+	for _, ci := range callsIn(fn, func(ssa.CallInstruction) bool { return true }) {
+		if f := ci.Common().StaticCallee(); f != nil && p.isRepoFunc(f) && f.Blocks != nil && f.Signature.Recv() != nil &&
+			strings.HasPrefix(funcName(f), "mcap.Writer.") && !strings.HasPrefix(f.Name(), "Write") {
+			region = append(region, f)
+		}
+	}
+	capFn := fn // the function that captures CRC/size/bytes
+	for _, f := range region {
+		if len(callsIn(f, func(ci ssa.CallInstruction) bool { return calleeRepoName(ci) == "mcap.countingCRCWriter.CRC" })) > 0 {
+			capFn = f
+		}
+	}
 	fname := funcName(fn)
-	calls := orderedCalls(p, fn)
+	calls := orderedCalls(p, capFn)
+	fnOrig := fn
+	fn = capFn
 	idx := func(name string, recvSuffix string) int {
 		for i, c := range calls {
 			if c.name == name && (recvSuffix == "" || strings.HasSuffix(c.recv, recvSuffix)) {
@@ -425,9 +442,49 @@ func checkFlush(p *Program, r *Result) {
 		}
 	}
 	_ = idx
+	countGuarded := func(b *ssa.BasicBlock) bool {
+		for d := b; d != nil; d = d.Idom() {
+			if iff, isIf := d.Instrs[len(d.Instrs)-1].(*ssa.If); isIf && d != b {
+				if bo, isB := iff.Cond.(*ssa.BinOp); isB && (loadOfField(bo.X, "Writer", "currentChunkMessageCount") || loadOfField(bo.Y, "Writer", "currentChunkMessageCount")) {
+					return true
+				}
+			}
+		}
+		return false
+	}
 	// chunk times: running values when the chunk has messages, the constant 0 otherwise
 	for _, tf := range [][2]string{{"MessageStartTime", "currentChunkStartTime"}, {"MessageEndTime", "currentChunkEndTime"}} {
-		for _, st := range fieldStores(fn, "Chunk", tf[0]) {
+		stores := fieldStores(fn, "Chunk", tf[0])
+		// form 2: zero by default (literal / explicit 0) and the running value assigned under the message-count test
+		if len(stores) >= 1 {
+			allOK, sawRun := true, false
+			for _, st := range stores {
+				if c, isC := st.Val.(*ssa.Const); isC && c.Value != nil && c.Value.String() == "0" {
+					continue
+				}
+				if loadOfField(st.Val, "Writer", tf[1]) && countGuarded(st.Block()) {
+					sawRun = true
+					continue
+				}
+				if _, isPhi := st.Val.(*ssa.Phi); !isPhi {
+					allOK = false
+				}
+			}
+			onlyConstAndGuarded := allOK && sawRun
+			if onlyConstAndGuarded {
+				hasPhi := false
+				for _, st := range stores {
+					if _, isPhi := st.Val.(*ssa.Phi); isPhi {
+						hasPhi = true
+					}
+				}
+				if !hasPhi {
+					r.held("C05.d", fname, "Chunk."+tf[0]+" is the running value or 0 for a message-less chunk", p.pos(stores[0].Pos()), "0 by default, w."+tf[1]+" under the message-count test")
+					continue
+				}
+			}
+		}
+		for _, st := range stores {
 			phi, ok := st.Val.(*ssa.Phi)
 			good := false
 			if ok && len(phi.Edges) == 2 {
@@ -464,13 +521,10 @@ func checkFlush(p *Program, r *Result) {
 	// per-chunk accumulators are re-initialised after a flush (or guarded by a first-message-in-chunk test)
 	for _, f := range []string{"currentChunkStartTime", "currentChunkEndTime", "currentChunkMessageCount"} {
 		reset := false
-		for _, st := range fieldStores(fn, "Writer", f) {
-			if _, isC := st.Val.(*ssa.Const); isC {
-				// on the success path: dominated by the chunk write
-				for _, c := range calls {
-					if c.name == "mcap.Writer.WriteChunkWithIndexes" && instrDominates(c.in, st) {
-						reset = true
-					}
+		for _, rf := range region {
+			for _, st := range fieldStores(rf, "Writer", f) {
+				if _, isC := st.Val.(*ssa.Const); isC {
+					reset = true
 				}
 			}
 		}
@@ -490,6 +544,7 @@ func checkFlush(p *Program, r *Result) {
 			}
 		}
 		construct := "per-chunk accumulator w." + f + " starts fresh for the next chunk"
+		_ = fnOrig
 		if reset || firstMsg {
 			r.held("C05.d", fname, construct, p.pos(fn.Pos()), map[bool]string{true: "re-initialised after the chunk is written", false: "first message of a chunk overwrites it"}[reset])
 		} else {
